@@ -301,7 +301,7 @@ func (c *Ctx) isRecursive(fn *ssa.Function, fr *Frame) bool {
 }
 
 func (s *State) bindFreshResult(call *ssa.Call, prefix string) {
-	rt := call.Type()
+	rt := callResultType(call)
 	if tup, ok := rt.(*types.Tuple); ok {
 		if tup.Len() == 0 {
 			return
@@ -1310,14 +1310,14 @@ func (s *State) runGhostAfter(fr *Frame, call *ssa.Call, anchor string) {
 		}()
 	}
 	if v, ok := fr.Vals[call]; ok && v != nil {
-		if tup, ok := call.Type().(*types.Tuple); ok {
+		if tup, ok := callResultType(call).(*types.Tuple); ok {
 			if tv, ok := v.(*Tuple); ok {
 				for i := 0; i < tup.Len() && i < len(tv.Vals); i++ {
 					extra[fmt.Sprintf("ret%d", i)] = s.valueTV(tv.Vals[i], tup.At(i).Type())
 				}
 			}
 		} else {
-			t := s.valueTV(v, call.Type())
+			t := s.valueTV(v, callResultType(call))
 			extra["ret"] = t
 			extra["ret0"] = t
 		}
@@ -1409,4 +1409,17 @@ func (s *State) topFrame() *Frame {
 		fr = fr.Caller
 	}
 	return fr
+}
+
+// callResultType: the type of a call's value. A call instruction synthesised by the engine (the deferred calls run at
+// RunDefers, the goroutines of a gosequential function) has no type of its own; it is taken from the callee's signature.
+func callResultType(call *ssa.Call) types.Type {
+	if t := call.Type(); t != nil {
+		return t
+	}
+	res := call.Call.Signature().Results()
+	if res.Len() == 1 {
+		return res.At(0).Type()
+	}
+	return res
 }
